@@ -389,9 +389,9 @@ def scn_history(ctx):
     seen_stages = set()
     saved_out = sys.stdout
     sys.stdout = _Null()
-    # the machine as the code sees it: one history in eight runs on a box with 64 MiB of free memory
+    # the machine as the code sees it: one history in five runs on a box with 64 MiB of free memory
     # (os.sysconf), as the simulated os.cpu_count() of the scheduler runs does for cores
-    lowmem = ch.draw(8, "simulated_free_memory") == 7
+    lowmem = ch.draw(5, "simulated_free_memory") == 4
     saved_sysconf = os.sysconf
     if lowmem:
         ctx.probes["history_with_64MiB_simulated_free_memory"] += 1
@@ -413,16 +413,16 @@ def scn_history(ctx):
                 a = ch.draw(m, "big_a")
                 n = (8193, 8192, 8191, 16385, 20001, 1, 12000, 65537)[ch.draw(8, "big_n")]
                 stride = (1, 1, 3, 7)[ch.draw(4, "big_stride")]
-                if st in ("tau_exit_prob", "tau_energy_u", "tau_energy_const") and ch.draw(1000 if tier == "quick" else 600, "giant") == 7:
+                if st in ("tau_exit_prob", "tau_energy_u", "tau_energy_const") and ch.draw(200 if tier == "quick" else 300, "giant") == 7:
                     # a production-size batch (beyond 2**22) in the middle of the session
                     n = 2**22 + 1 + ch.draw(3, "giant_n")
                     ctx.probes["batch_gt_2^22"] += 1
                 idx = (a + np.arange(n, dtype=np.int64) * stride) % m
                 if n > 8192:
                     ctx.probes["batch_gt_8192"] += 1
-            elif st == "radio" and lowmem and ch.draw(6, "radio_big") == 5:
+            elif st == "radio" and lowmem and ch.draw(3, "radio_big") == 2:
                 # more showers than fit into the (simulated) free memory at once
-                k = (4097, 10001, 12345)[ch.draw(3, "radio_big_n")]
+                k = 4237 + ch.draw(12000, "radio_big_n")
                 idx = np.resize(np.roll(np.arange(m), ch.draw(m, "radio_big_roll")), k)
                 ctx.probes["radio_batch_beyond_simulated_free_memory"] += 1
             elif st == "eas" and ch.draw(16, "eas_big") == 15:
